@@ -245,6 +245,16 @@ func c13Corpus() ([]*corpusItem, error) {
    "n": {"xpath": ".[contains(city, '` + lit + `')]/val"}}}}}`),
 			Input: []byte(`[{"city": "NEW  YORK", "val": "1"}, {"city": "NEW YORK", "val": "2"}, {"city": "NEW\tYORK", "val": "3"}, {"city": "NEWYORK", "val": "4"}]`)})
 	}
+	extra = append(extra, &corpusItem{Name: "c13/edi-defaulted-elements", Format: "edi", Schema: []byte(`{"parser_settings": {"version": "omni.2.1", "file_format_type": "edi"},
+ "file_declaration": {"segment_delimiter": "~", "element_delimiter": "*", "segment_declarations": [{"name": "HDR", "is_target": true, "max": -1,
+   "elements": [{"name": "id", "index": 1}, {"name": "city", "index": 2, "default": "anywhere"}, {"name": "country", "index": 3, "default": "nowhere"}, {"name": "zip", "index": 4, "empty_if_missing": true}]}]},
+ "transform_declarations": {"FINAL_OUTPUT": {"object": {"id": {"xpath": "id"},
+   "city": {"xpath": "city", "template": "wrap"}, "country": {"xpath": "country", "template": "wrap"}, "zip": {"xpath": "zip", "template": "wrap"},
+   "all": {"array": [{"xpath": "*", "template": "val"}]},
+   "city_js": {"xpath": "city", "custom_func": {"name": "javascript_with_context", "args": [{"const": "_node"}]}},
+   "country_js": {"xpath": "country", "custom_func": {"name": "javascript_with_context", "args": [{"const": "_node"}]}}}},
+  "wrap": {"object": {"v": {"xpath": "."}}}, "val": {"object": {"w": {"xpath": "."}}}}}`),
+		Input: []byte("HDR*1~HDR*2*paris~HDR*3*rome*italy*00100~HDR*4~HDR*5**spain~")})
 	extra = append(extra, &corpusItem{Name: "c13/builtin-funcs", Format: "json", Schema: []byte(c13BuiltinFuncs), Input: []byte(c13ExtFuncsInput)})
 	for _, it := range extra {
 		if it.mk != nil {
@@ -264,6 +274,17 @@ func c13Corpus() ([]*corpusItem, error) {
 	for _, e := range []map[string]string{{"value_path": "a", "tag": "first"}, {"value_path": "b", "tag": "second"}, {"value_path": "nomatch", "tag": ""}} {
 		extra = append(extra, &corpusItem{Name: "c13/external-xpath-" + e["value_path"], Format: "json", Schema: []byte(c13ExtDyn), Input: []byte(c13ExtDynInput), Ext: e, sch: extSch})
 	}
+	// external properties whose names differ only in the case of their letters (a schema name that matches none of them
+	// exactly is a missing property, every time)
+	caseSchema := []byte(`{"parser_settings": {"version": "omni.2.1", "file_format_type": "json"},
+ "transform_declarations": {"FINAL_OUTPUT": {"xpath": "/*", "object": {"id": {"xpath": "id"}, "exact": {"external": "Tenant_Id"},
+   "other": {"custom_func": {"name": "concat", "args": [{"external": "tenant_id"}], "ignore_error": true}}, "third": {"external": "REGION", "keep_empty_or_null": true}}}}}`)
+	caseSch, err, p := newSchema(caseSchema)
+	if err != nil || p != "" {
+		return nil, fmt.Errorf("c13 external-case schema rejected: %v %s", err, p)
+	}
+	extra = append(extra, &corpusItem{Name: "c13/external-names-differing-in-case", Format: "json", Schema: caseSchema, Input: []byte(`[{"id": "1"}, {"id": "2"}, {"id": "3"}, {"id": "4"}]`),
+		Ext: map[string]string{"Tenant_Id": "from-header", "TENANT_ID": "from-env", "tenant_ID": "from-flag", "Tenant_id": "from-file", "REGION": "", "Region": "eu", "region": "us"}, sch: caseSch})
 	return append(extra, items...), nil
 }
 
